@@ -1,5 +1,6 @@
 import ArroyModel.Check
 import ArroyModel.Upgrade
+import ArroyModel.Ids
 /-! The trace driver (PROTOCOL.md): runs the model on the operations of a trace written by the
 Rust harness, compares every answer and every dump, and evaluates the predicates of
 `Check.lean` on the implementation's own data. -/
@@ -583,7 +584,8 @@ def handleOp (d : DState) (p : Pending) (res : List String) : DState := Id.run d
                 if q.count ≥ rd.items.length && Check.hasGoodTree cr s x then
                   d := { d with nSelfLookups := d.nSelfLookups + 1 }
                   if !(implAns.any (·.1 == x)) then
-                    d := d.prop "C04" s!"item {x} looked up by its own vector with budget 1 is not among {implAns.map (·.1)}"
+                    let log := Check.popLog cr s qv 40 (rd.roots.map fun r => (F32.inf, NodeId.mkTree r))
+                    d := d.prop "C04" s!"item {x} looked up by its own vector with budget 1 is not among {implAns.map (·.1)}; pops: {log.map fun (p, n, w) => s!"[{hex8 p} {n.mode}:{n.item} {w}]"}"
               | none => pure ()
             -- C03: by_item = by_vector of the stored vector
             if by_.startsWith "item:" then
@@ -869,11 +871,41 @@ def handleRaw (d : DState) (toks res : List String) : DState := Id.run do
     return d.setView st
   | _ => return d.diff "unsupported raw op" "" (" ".intercalate toks)
 
+
+/-! ### id-generator schedules (C13) -/
+
+def idsResultStr : Ids.Result → String
+  | .id n => s!"id={n}"
+  | .full => "full"
+
+def handleIds (d : DState) (toks res : List String) : DState := Id.run do
+  let mut d := { d with nRecords := d.nRecords + 1, step := d.step + 1 }
+  let some used := (kv? toks "used") >>= parseIds? | return d.diff "unparsable ids record" "" (" ".intercalate toks)
+  let some threads := (kv? toks "threads") >>= parseNat? | return d.diff "unparsable ids record" "" ""
+  let some reqs := (kv? toks "reqs") >>= parseNat? | return d.diff "unparsable ids record" "" ""
+  let some sched := (kv? toks "sched") >>= parseIds? | return d.diff "unparsable ids record" "" ""
+  let c0 := Ids.initWith (IdSet.ofList used) (List.replicate threads (some reqs))
+  let (_, trace) := Ids.runTrace c0 sched
+  let model := (List.zip sched trace).map fun (t, st) =>
+    match st with
+    | some (op, some r) => s!"{t}:{op}:{idsResultStr r}"
+    | some (op, none) => s!"{t}:{op}"
+    | none => s!"{t}:-"
+  if model != res then
+    d := d.diff s!"schedule {kv? toks "sched"} on used={kv? toks "used"}" (" ".intercalate model) (" ".intercalate res)
+  -- the property itself, on the implementation's own results
+  let implIds := res.filterMap fun r => match r.splitOn ":id=" with
+    | [_, n] => parseNat? n
+    | _ => none
+  if !(Check.nodup implIds) then d := d.prop "C13" s!"an id was handed out twice: {implIds} (used={used}, sched={sched})"
+  if implIds.any (fun i => used.contains i) then d := d.prop "C13" s!"an id in use was handed out: {implIds} (used={used}, sched={sched})"
+  return d
+
 /-! ### the line loop -/
 
 def opKeywords : List String :=
   ["add", "append", "del", "clear", "prepare", "build", "needbuild", "open", "get", "contains", "isempty", "iter",
-   "rget", "rcontains", "risempty", "riter", "ritemids", "nns", "kern", "dist", "bq", "rawput", "rawdel", "upgrade04to05", "upgrade05to06"]
+   "rget", "rcontains", "risempty", "riter", "ritemids", "nns", "kern", "dist", "bq", "rawput", "rawdel", "upgrade04to05", "upgrade05to06", "ids"]
 
 def step (d : DState) (line : String) : DState :=
   let line := line.trimAscii.toString
@@ -939,7 +971,8 @@ def step (d : DState) (line : String) : DState :=
   | "res" :: res =>
     match d.pending with
     | some p =>
-      if ["kern", "dist", "bq"].contains (p.toks.headD "") then handleKern { d with pending := none } p.toks res
+      if p.toks.headD "" == "ids" then handleIds { d with pending := none } p.toks res
+      else if ["kern", "dist", "bq"].contains (p.toks.headD "") then handleKern { d with pending := none } p.toks res
       else if ["rawput", "rawdel", "upgrade04to05", "upgrade05to06"].contains (p.toks.headD "") then handleRaw { d with pending := none } p.toks res
       else handleOp { d with pending := none } p res
     | none => d.diff "result without an operation" "" line
